@@ -1,7 +1,9 @@
 import FrappyProofs.Lemmas.WireCore
 import FrappyProofs.Lemmas.ClientOf
 import FrappyProofs.Lemmas.TextRoundtrip
+import FrappyProofs.Lemmas.ClientText
 import FrappyProofs.Lemmas.RatWireLaws
+import FrappyProofs.Lemmas.TextLibRat
 import FrappyModel.Generated.C02
 /-
 C02 — property theorems (nothing but property theorems and their non-vacuity examples).
@@ -29,14 +31,21 @@ theorem export_kind (dt : DType F) (hwf : dt.WF) (v : PVal F) (hv : Valid dt v) 
 
 theorem wire_roundtrip_node (dt : DType F) (hwf : dt.WF) (v : PVal F) (hv : Valid dt v) (hb : B64Law) :
     ∃ v', (exportValue dt v >>= importValue dt) = .ok v' ∧ pyEq v' v = true := by
-  obtain ⟨j, v', h1, _, _, _, h4, h5⟩ := wire_core dt v hwf hv hb
+  obtain ⟨j, v', h1, _, _, _, h4, h5, _⟩ := wire_core dt v hwf hv hb
   exact ⟨v', by rw [h1]; exact h4, h5⟩
 
 /-- … through the JSON text: any `dumps`/`loads` pair that reads back what it wrote for strict values -/
 theorem wire_roundtrip_text (T : JsonText F) (dt : DType F) (hwf : dt.WF) (v : PVal F) (hv : Valid dt v) (hb : B64Law) :
     ∃ j v', exportValue dt v = .ok j ∧ T.loads (T.dumps j) = some j ∧ importValue dt j = .ok v' ∧ pyEq v' v = true := by
-  obtain ⟨j, v', h1, _, h3, _, h4, h5⟩ := wire_core dt v hwf hv hb
+  obtain ⟨j, v', h1, _, h3, _, h4, h5, _⟩ := wire_core dt v hwf hv hb
   exact ⟨j, v', h1, T.loads_dumps j h3, h4, h5⟩
+
+/-- a canonical value (no `-0.0` leaf: what validation returns) comes back as the very same value, not only an equal one -/
+theorem wire_roundtrip_exact (dt : DType F) (hwf : dt.WF) (v : PVal F) (hv : Valid dt v) (hc : Canon v) (hb : B64Law) :
+    (exportValue dt v >>= importValue dt) = .ok v := by
+  obtain ⟨j, v', h1, _, _, _, h4, _, h6⟩ := wire_core dt v hwf hv hb
+  rw [h1, ← h6 hc]
+  exact h4
 
 /-! ## … and on a client that rebuilt the datatype from the node's description -/
 
@@ -52,81 +61,91 @@ theorem wire_roundtrip_client (T : JsonText F) (dt cdt : DType F) (hwf : dt.WF) 
 
 /-! ## the text form is accepted back and maps to a value with the identical text form -/
 
-/-- full statement: every well-formed tree (structs included), every valid canonical value (structs of node-side types
-given with all members, `TextComplete`), enum names that `strip` leaves alone -/
-def text_roundtrip_statement (F : Type) [FloatOps F] [WireLaws F] : Prop :=
-  ∀ (lib : TextLib F), TextLib.Lawful lib → ∀ (dt : DType F), dt.WF → NamesStripped lib dt →
-  ∀ (v : PVal F), Valid dt v → Canon v → TextComplete dt v →
-  ∃ t v', toString lib dt v = some t ∧ fromString lib dt t = .ok v' ∧ toString lib dt v' = some t ∧ SameButFloats v' v
-
-/-- proved part: every tree without a struct node (all leaf kinds, arrays, tuples — the one-member tuple included).
-Missing: the struct case (the model and the monitors cover it; the correspondence run judges it on the implementation). -/
-theorem text_roundtrip_partial (lib : TextLib F) (hl : TextLib.Lawful lib) (dt : DType F) (hwf : dt.WF)
-    (hns : NoStruct dt) (hnames : NamesStripped lib dt) (v : PVal F) (hv : Valid dt v) (hc : Canon v) :
+/-- every well-formed tree (structs included), every valid canonical value (structs of node-side types given with all
+their members: `TextComplete`; nothing is asked on a client's type): `to_string`
+answers a text, `from_string` accepts it, the value it is read as has the identical text form and equals `v` at every
+non-float leaf -/
+theorem text_roundtrip (lib : TextLib F) (hl : TextLib.Lawful lib) (dt : DType F) (hwf : dt.WF)
+    (v : PVal F) (hv : Valid dt v) (hc : Canon v) (htc : TextComplete dt v) :
     ∃ t v', toString lib dt v = some t ∧ fromString lib dt t = .ok v' ∧ toString lib dt v' = some t ∧
       SameButFloats v' v := by
-  have core := text_core lib hl dt [] v hwf hns hv hc
-  cases dt with
-  | string minc maxc utf8 =>
-    cases v <;> simp only [Valid, InSetG] at hv <;> try exact hv.elim
-    case str s =>
-      have h := string_rt (F := F) hv
-      exact ⟨.bare s, .str s, rfl, by simp [fromString, h, Except.map], rfl, by simp [SameButFloats]⟩
-  | enum ms =>
-    cases v <;> simp only [Valid, InSetG] at hv <;> try exact hv.elim
-    case enum n k =>
-      simp only [DType.WF] at hwf
-      simp only [NamesStripped] at hnames
-      have hs : lib.strip n = n := hnames (n, k) hv
-      have hf := find_member_name hv hwf.2.1
-      exact ⟨.bare n, .enum n k, rfl, by simp [fromString, hs, hf], rfl, by simp [SameButFloats]⟩
-  | bool =>
-    cases v <;> simp only [Valid, InSetG] at hv <;> try exact hv.elim
-    case bool b =>
-      refine ⟨.bare (lib.reprBool b), .bool b, rfl, ?_, rfl, by simp [SameButFloats]⟩
-      cases b
-      · simp [fromString, hl.boolWordFalse, boolFalseWords]
-      · simp [fromString, hl.boolWordTrue, boolFalseWords, boolTrueWords]
-  | double min max ar rr =>
-    obtain ⟨s, w, v', h1, h2, h3, h4, h5⟩ := core
-    exact ⟨.syn s, v', by simp [Datatypes.toString, h1], by simp [fromString, h2, h3], by simp [Datatypes.toString, h4], h5⟩
-  | int min max =>
-    obtain ⟨s, w, v', h1, h2, h3, h4, h5⟩ := core
-    exact ⟨.syn s, v', by simp [Datatypes.toString, h1], by simp [fromString, h2, h3], by simp [Datatypes.toString, h4], h5⟩
-  | scaled scale min max ar rr =>
-    obtain ⟨s, w, v', h1, h2, h3, h4, h5⟩ := core
-    exact ⟨.syn s, v', by simp [Datatypes.toString, h1], by simp [fromString, h2, h3], by simp [Datatypes.toString, h4], h5⟩
-  | blob minb maxb =>
-    obtain ⟨s, w, v', h1, h2, h3, h4, h5⟩ := core
-    exact ⟨.syn s, v', by simp [Datatypes.toString, h1], by simp [fromString, h2, h3], by simp [Datatypes.toString, h4], h5⟩
-  | array elem lo hi =>
-    obtain ⟨s, w, v', h1, h2, h3, h4, h5⟩ := core
-    exact ⟨.syn s, v', by simp [Datatypes.toString, h1], by simp [fromString, h2, h3], by simp [Datatypes.toString, h4], h5⟩
-  | tuple elems =>
-    obtain ⟨s, w, v', h1, h2, h3, h4, h5⟩ := core
-    exact ⟨.syn s, v', by simp [Datatypes.toString, h1], by simp [fromString, h2, h3], by simp [Datatypes.toString, h4], h5⟩
-  | struct ms opt cl => simp [NoStruct] at hns
+  obtain ⟨t, v', h1, h2, h3, h4, _⟩ := text_rt lib hl dt (wft_of_wf dt hwf) v hv hc htc
+  exact ⟨t, v', h1, h2, h3, h4⟩
+
+/-- … the same on the datatype a client rebuilt from the description, for every valid value of it (structs may lack
+their optional members there: every rebuilt struct has `client = True`) -/
+theorem text_roundtrip_client (lib : TextLib F) (hl : TextLib.Lawful lib) (dt cdt : DType F) (hwf : dt.WF)
+    (hc : clientOf dt = some cdt) (v : PVal F) (hv : Valid cdt v) (hcan : Canon v) :
+    ∃ t v', toString lib cdt v = some t ∧ fromString lib cdt t = .ok v' ∧ toString lib cdt v' = some t ∧
+      SameButFloats v' v := by
+  obtain ⟨t, v', h1, h2, h3, h4, _⟩ := text_rt lib hl cdt (wft_clientOf dt cdt (wft_of_wf dt hwf) hc) v hv hcan
+    (textComplete_clientOf dt cdt v hc)
+  exact ⟨t, v', h1, h2, h3, h4⟩
+
+/-! ### recorded finding: the format law is necessary — where it fails at a double leaf, the text form changes
+
+`'%.1f' % -0.04` is `'-0.0'`, which `from_string` reads as `-0.0 + 0.0 = 0.0`, whose text form is `'0.0'`: the text form
+offered for the valid value `-0.04` maps to a value with another text form (`known_findings/C02.json`,
+`C02:text:form-changed:neg-zero-text`).  The two library facts are tested on the implementation side; the rest is this theorem. -/
+
+theorem text_form_changes_where_format_law_fails (lib : TextLib F) (min max ar rr x : F) (w : PVal F) (r : F)
+    (h1 : lib.evalAtom (lib.fmtFloat [] x) = some w) (h2 : PVal.toFloat? w = some r) (hn : FloatOps.isNaN r = false)
+    (h3 : lib.fmtFloat [] (FloatOps.median3 (FloatOps.neg FloatOps.maxFinite) r FloatOps.maxFinite) ≠ lib.fmtFloat [] x) :
+    ∃ t v', toString lib (.double min max ar rr) (.float x) = some t ∧ fromString lib (.double min max ar rr) t = .ok v' ∧
+      toString lib (.double min max ar rr) v' ≠ some t := by
+  refine ⟨.syn (.atom (lib.fmtFloat [] x)), .float (FloatOps.median3 (FloatOps.neg FloatOps.maxFinite) r FloatOps.maxFinite), rfl, ?_, ?_⟩
+  · simp [fromString, literalEval, h1, call, conv, doubleCall_of_number h2 hn, Except.map]
+  · intro h
+    simp only [Datatypes.toString, formatValue, fmtNumber, Option.map_some, Option.some.injEq, Text.syn.injEq, Surf.atom.injEq] at h
+    exact h3 h
+
+/-- the same at a scaled leaf (`ScaledInteger(0.01).from_string('-0.0')` is `0.0`) -/
+theorem text_form_changes_where_format_law_fails_scaled (lib : TextLib F) (scale min max ar rr x : F) (w : PVal F) (r y : F)
+    (h1 : lib.evalAtom (lib.fmtFloat [] x) = some w) (h2 : PVal.toFloat? w = some r) (hs : DType.snap scale r = some y)
+    (hf : FloatOps.isFinite y = true) (h3 : lib.fmtFloat [] y ≠ lib.fmtFloat [] x) :
+    ∃ t v', toString lib (.scaled scale min max ar rr) (.float x) = some t ∧
+      fromString lib (.scaled scale min max ar rr) t = .ok v' ∧ toString lib (.scaled scale min max ar rr) v' ≠ some t := by
+  refine ⟨.syn (.atom (lib.fmtFloat [] x)), .float y, rfl, ?_, ?_⟩
+  · simp [fromString, literalEval, h1, call, conv, scaledCall_of_number h2 hs hf, Except.map]
+  · intro h
+    simp only [Datatypes.toString, formatValue, fmtNumber, Option.map_some, Option.some.injEq, Text.syn.injEq, Surf.atom.injEq] at h
+    exact h3 h
 
 /-! ## what `setParameterFromString` puts on the wire imports, on the node, to the value the text was read as -/
 
-/-- full statement: for every valid canonical value `v` held in the client's cache, the text `str(CacheItem)` is read
-back as some `v'`, and the value sent imports on the node to a value equal to `v'` -/
-def client_string_write_statement (F : Type) [FloatOps F] [WireLaws F] : Prop :=
-  ∀ (lib : TextLib F), TextLib.Lawful lib → B64Law → ∀ (dt cdt : DType F), dt.WF → clientOf dt = some cdt →
-  NamesStripped lib cdt → ∀ (v : PVal F), Valid cdt v → Canon v →
-  ∃ t v' j v'', cacheItemStr lib cdt v = some t ∧ fromString lib cdt t = .ok v' ∧ clientSetFromString lib cdt t = .ok j ∧
-    KindOK dt j ∧ StrictJ j ∧ importValue dt j = .ok v'' ∧ pyEq v'' v' = true
+/-- for every valid canonical value `v` held in the client's cache (a value of the rebuilt type `cdt`), the text
+`str(CacheItem)` is read back by `from_string` as some `v'` with the identical text form (equal to `v` at every
+non-float leaf); the value `setParameterFromString` sends is of the kind prescribed by the node's type, strict, and
+imports on the node to a value equal to `v'`.  (A re-read float may lie outside the limits — `'%g' % 123456789.0`
+reads back as `123457000.0`; `import_value` does not look at limits, the `change` request validates.) -/
+theorem client_string_write (lib : TextLib F) (hl : TextLib.Lawful lib) (hb : B64Law) (dt cdt : DType F) (hwf : dt.WF)
+    (hc : clientOf dt = some cdt) (v : PVal F) (hv : Valid cdt v) (hcan : Canon v) :
+    ∃ t v' j v'', cacheItemStr lib cdt v = some t ∧ fromString lib cdt t = .ok v' ∧ toString lib cdt v' = some t ∧
+      SameButFloats v' v ∧ clientSetFromString lib cdt t = .ok j ∧ KindOK dt j ∧ StrictJ j ∧
+      importValue dt j = .ok v'' ∧ pyEq v'' v' = true := by
+  obtain ⟨t, v', h1, h2, h3, h4, hs⟩ := text_rt lib hl cdt (wft_clientOf dt cdt (wft_of_wf dt hwf) hc) v hv hcan
+    (textComplete_clientOf dt cdt v hc)
+  obtain ⟨j, v'', e1, e2, e3, _, e4, e5, _⟩ := send_core dt v' hwf (sendable_clientOf dt cdt v' hc hs) hb
+  exact ⟨t, v', j, v'', h1, h2, h3, h4, by simp [clientSetFromString, clientSet, h2, export_clientOf dt cdt v' hc, e1], e2, e3, e4, e5⟩
 
-/-- proved part: whenever the value the text is read as is a valid value of the node's type (always so when the type
-has no float leaf, where `text_roundtrip_partial` gives `v' = v` leaf by leaf; a re-read float may leave the limits),
-the value sent is the exported form — strict, of the prescribed kind — and imports on the node to a value equal to it.
-Missing: validity of the re-read value for float leaves. -/
-theorem client_string_write_partial (lib : TextLib F) (hb : B64Law) (dt cdt : DType F) (hwf : dt.WF)
-    (hc : clientOf dt = some cdt) (t : Text) (v' : PVal F) (hback : fromString lib cdt t = .ok v') (hv' : Valid dt v') :
-    ∃ j v'', clientSetFromString lib cdt t = .ok j ∧ KindOK dt j ∧ StrictJ j ∧ importValue dt j = .ok v'' ∧
-      pyEq v'' v' = true := by
-  obtain ⟨j, v'', h1, h2, h3, _, h4, h5⟩ := wire_core dt v' hwf hv' hb
-  exact ⟨j, v'', by simp [clientSetFromString, hback, export_clientOf dt cdt v' hc, h1], h2, h3, h4, h5⟩
+/-- the whole path of a value through a client: the node exports the canonical valid value `v` (`update` message), the
+client's `updateValue` imports it into a cache entry holding exactly `v`, `str(entry)` is a text `from_string` accepts,
+reading it as `v'` (same text form, equal to `v` at every non-float leaf), and what `setParameterFromString` sends for
+that text is strict JSON of the prescribed kind which the node imports to a value equal to `v'`.
+`LimitsOnGrid dt`: the grid law at the limits of the scaled leaves (the limits travel as grid indices; nothing is asked
+of a tree without scaled leaves) — then `v` is a valid value of the rebuilt type as well (`Lemmas.C02.valid_clientOf`). -/
+theorem client_cache_string_write (lib : TextLib F) (hl : TextLib.Lawful lib) (hb : B64Law) (dt cdt : DType F) (hwf : dt.WF)
+    (hlim : LimitsOnGrid dt) (hc : clientOf dt = some cdt) (v : PVal F) (hv : Valid dt v) (hcan : Canon v) :
+    ∃ j item t v' j' v'', exportValue dt v = .ok j ∧ updateValue cdt j = .ok item ∧ item.value = v ∧
+      item.str lib cdt = some t ∧ fromString lib cdt t = .ok v' ∧ toString lib cdt v' = some t ∧ SameButFloats v' v ∧
+      clientSetFromString lib cdt t = .ok j' ∧ KindOK dt j' ∧ StrictJ j' ∧ importValue dt j' = .ok v'' ∧ pyEq v'' v' = true := by
+  obtain ⟨j, w, h1, _, _, _, h4, _, h6⟩ := wire_core dt v hwf hv hb
+  have hw : w = v := h6 hcan
+  subst hw
+  obtain ⟨t, v', j', v'', c1, c2, c3, c4, c5, c6, c7, c8, c9⟩ :=
+    client_string_write lib hl hb dt cdt hwf hc w (valid_clientOf dt cdt w hlim hc hv) hcan
+  exact ⟨j, ⟨w, none⟩, t, v', j', v'', h1, by simp [updateValue, client_imports_alike dt cdt hc, h4], rfl, c1, c2, c3, c4, c5,
+    c6, c7, c8, c9⟩
 
 /-! ## constants of the source -/
 
@@ -164,11 +183,97 @@ example (hb : B64Law) : ∃ v', (exportValue exTree exValue >>= importValue exTr
 
 example : ∃ cdt, clientOf exTree = some cdt := ⟨_, rfl⟩
 
+/-! non-vacuity of the text theorems: a library satisfying every law of `TextLib.Lawful` (`Lemmas/TextLibRat.lean`), the
+struct tree above with a node-side value that has all its members, and — on the rebuilt type — the value without its
+optional member -/
+
+def exValueFull : PVal Rat :=
+  .dict [("b", .tuple [.enum "on" 1, .enum "off" 0]), ("a", .tuple [.float (33/10)]), ("c", .str "x'y")]
+
+/-- what a client rebuilds from the description of `exTree` -/
+def exClient : DType Rat :=
+  .struct [("a", .tuple [.scaled (1/10) 0 10 (1/10) 0]), ("b", .array (.enum [("off", 0), ("on", 1)]) 0 3),
+    ("c", .string 0 5 true)] ["c"] true
+
+theorem exTree_limits : LimitsOnGrid exTree := by
+  have h0 : DType.snap (1/10 : Rat) 0 = some 0 := by decide +kernel
+  have h10 : DType.snap (1/10 : Rat) 10 = some 10 := by decide +kernel
+  simp only [exTree, LimitsOnGrid, LimitsOnGridFields, LimitsOnGridList, and_true, h0, h10, Option.some.injEq]
+  refine ⟨fun lo h => ?_, fun hi h => ?_⟩
+  · subst h; decide +kernel
+  · subst h; decide +kernel
+
+theorem exClient_eq : clientOf exTree = some exClient := by
+  simp [exTree, exClient, clientOf, clientOfFields, clientOfList, clientScaled, DType.gridIndex, FloatOps.div, FloatOps.round,
+    FloatOps.ofInt, FloatOps.mul]
+  decide +kernel
+
+example : ∃ t v', toString exLib exTree exValueFull = some t ∧ fromString exLib exTree t = .ok v' ∧
+    toString exLib exTree v' = some t ∧ SameButFloats v' exValueFull :=
+  text_roundtrip exLib exLib_lawful exTree exTree_wf
+    exValueFull
+    (of_decide_eq_true (by decide +kernel : validB exTree exValueFull = true))
+    (by simp [exValueFull, Canon, CanonFields, CanonList, FloatOps.same, FloatOps.addZero])
+    (by simp [exTree, exValueFull, TextComplete, TextCompleteMember, TextCompleteZip])
+
+example (hb : B64Law) : ∃ t v' j v'', cacheItemStr exLib exClient exValue = some t ∧ fromString exLib exClient t = .ok v' ∧
+    toString exLib exClient v' = some t ∧ SameButFloats v' exValue ∧ clientSetFromString exLib exClient t = .ok j ∧
+    KindOK exTree j ∧ StrictJ j ∧ importValue exTree j = .ok v'' ∧ pyEq v'' v' = true :=
+  client_string_write exLib exLib_lawful hb exTree exClient exTree_wf exClient_eq
+    exValue
+    (of_decide_eq_true (by decide +kernel : validB exClient exValue = true))
+    (by simp [exValue, Canon, CanonFields, CanonList, FloatOps.same, FloatOps.addZero])
+
+example (hb : B64Law) : (exportValue exTree exValue >>= importValue exTree) = .ok exValue :=
+  wire_roundtrip_exact exTree exTree_wf exValue exValue_valid
+    (by simp [exValue, Canon, CanonFields, CanonList, FloatOps.same, FloatOps.addZero]) hb
+
+example (hb : B64Law) : ∃ j item t v' j' v'', exportValue exTree exValue = .ok j ∧ updateValue exClient j = .ok item ∧
+    item.value = exValue ∧ item.str exLib exClient = some t ∧ fromString exLib exClient t = .ok v' ∧
+    toString exLib exClient v' = some t ∧ SameButFloats v' exValue ∧ clientSetFromString exLib exClient t = .ok j' ∧
+    KindOK exTree j' ∧ StrictJ j' ∧ importValue exTree j' = .ok v'' ∧ pyEq v'' v' = true :=
+  client_cache_string_write exLib exLib_lawful hb exTree exClient exTree_wf exTree_limits exClient_eq
+    exValue exValue_valid
+    (by simp [exValue, Canon, CanonFields, CanonList, FloatOps.same, FloatOps.addZero])
+
+/-- a library whose float format is not idempotent at `1` (it prints `1` as a text that reads back as `0`, which prints
+otherwise): the hypotheses of `text_form_changes_where_format_law_fails` are satisfiable -/
+def exLibBad : TextLib Rat := { exLib with fmtFloat := fun _ x => if x = 1 then "i+" else "f" }
+
+example : ∃ t v', toString exLibBad (.double 0 10 0 0) (.float (1 : Rat)) = some t ∧
+    fromString exLibBad (.double 0 10 0 0) t = .ok v' ∧ toString exLibBad (.double 0 10 0 0) v' ≠ some t :=
+  text_form_changes_where_format_law_fails exLibBad 0 10 0 0 1 (.int 0) 0
+    (by
+      have : "i+".toList = ['i', '+'] := by decide +kernel
+      simp [exLibBad, exLib, this])
+    rfl rfl
+    (by
+      have h : FloatOps.median3 (FloatOps.neg FloatOps.maxFinite) (0 : Rat) FloatOps.maxFinite = 0 := by decide +kernel
+      simp only [h]
+      simp [exLibBad])
+
+example : ∃ t v', toString exLibBad (.scaled (1/10) 0 10 0 0) (.float (1 : Rat)) = some t ∧
+    fromString exLibBad (.scaled (1/10) 0 10 0 0) t = .ok v' ∧ toString exLibBad (.scaled (1/10) 0 10 0 0) v' ≠ some t :=
+  text_form_changes_where_format_law_fails_scaled exLibBad (1/10) 0 10 0 0 1 (.int 0) 0 0
+    (by
+      have : "i+".toList = ['i', '+'] := by decide +kernel
+      simp [exLibBad, exLib, this])
+    rfl (by decide +kernel) (by decide +kernel) (by simp [exLibBad])
+
 /-- a tree without struct for the text theorem: `array of tuple(enum)` (one-member tuples) -/
 def exTextTree : DType Rat := .array (.tuple [.enum [("off", 0), ("on", 1)]]) 0 3
 
 def exTextValue : PVal Rat := .tuple [.tuple [.enum "on" 1], .tuple [.enum "off" 0]]
 
 example : exTextTree.wfB = true ∧ validB exTextTree exTextValue = true := by decide +kernel
+
+example : ∃ t v', toString exLib exTextTree exTextValue = some t ∧ fromString exLib exTextTree t = .ok v' ∧
+    toString exLib exTextTree v' = some t ∧ SameButFloats v' exTextValue :=
+  text_roundtrip exLib exLib_lawful exTextTree
+    (by simp [exTextTree, DType.WF, DType.WFList, DType.namesOK])
+    exTextValue
+    (of_decide_eq_true (by decide +kernel : validB exTextTree exTextValue = true))
+    (by simp [exTextValue, Canon, CanonList])
+    (by simp [exTextTree, exTextValue, TextComplete, TextCompleteZip])
 
 end Frappy.Props.C02
